@@ -101,6 +101,8 @@ pub fn tokenize(src: &str) -> Result<Vec<Token>, KikiErr> {
 #[derive(Debug, Default)]
 pub struct Stages {
     pub tokens: Option<Vec<Token>>,
+    /// The front-end parser accepted the token sequence (a CST existed).
+    pub parsed: bool,
     pub validated: Option<validated_file::File>,
     pub machine: Option<Machine>,
     pub table: Option<Table>,
@@ -128,6 +130,7 @@ pub fn stages(src: &str) -> Stages {
             return out;
         }
     };
+    out.parsed = true;
     let ast: crate::data::ast::File = cst.into();
     let validated = match p::validate_ast(ast) {
         Ok(v) => v,
